@@ -19,6 +19,14 @@ CHECKS = {
     ),
 }
 
+CHECKS["C04"] = dict(
+    engine="symx+z3",
+    technique="bounded symbolic execution (symx/z3) of the real unwrap_stackslice body on a stub thread/greenlet stack with an unbounded symbolic limit, plus all entry points on real frames and real greenlets",
+    text="All feasible paths of the real slicing code for every stack of 1..5 (thorough 7) frames, every greenlet split, every (outer, inner) anchor pair incl. a foreign thread, and limit ranging over ALL integers >= 1 as a z3 Int; extract/extract_since/extract_until on real nested calls, generators, coroutines and greenlets up to depth 3 (4). Holds within those sizes.",
+    note="Stub frames expose only f_back/identity; greenlet stub follows the semantics described in _glue.py comments and is cross-checked by obligation B on real greenlets. Racing threads and PyPy f_back cycles are outside.",
+    ref="DESIGN.md 5.C04",
+)
+
 NOT_APPLICABLE = {
     "C06": "Quantifies over interpreter bookkeeping (reference counts, object lifetime, crashes) behind a ctypes boundary; no value a solver can range over, and any symbolic engine perturbs the very refcounts measured (DESIGN.md 5.C06).",
     "C07": "OS-thread interleavings against raw-memory reads; depends on when CPython releases the GIL, not on Python-level data; needs a runtime schedule controller, a different technique family (DESIGN.md 5.C07).",
